@@ -34,6 +34,11 @@ pub enum BOp {
 
 #[derive(Serialize, Deserialize, Clone, Debug)]
 pub struct BoxcarScript {
+    /// index-space exhaustion variant: before the threads start, one batch whose iterator reports
+    /// this length (it reserves indices without memory and is rejected); every later push and
+    /// extend must be rejected too and count() must stay put
+    #[serde(default)]
+    pub overflow: Option<u32>,
     pub capacity: u32,
     pub columns: u32,
     pub pool_threads: u32,
@@ -43,7 +48,8 @@ pub struct BoxcarScript {
 impl BoxcarScript {
     pub fn summary(&self) -> String {
         format!(
-            "cap={} cols={} threads={} ops={} strategy={}",
+            "overflow={:?} cap={} cols={} threads={} ops={} strategy={}",
+            self.overflow,
             self.capacity,
             self.columns,
             self.threads.len(),
@@ -142,7 +148,7 @@ impl ExactSizeIterator for LyingIter {
     }
 }
 
-fn thread_main(vec: Arc<RawVec<Payload>>, ops: Vec<BOp>, pool: Option<Arc<rayon::ThreadPool>>) {
+fn thread_main(vec: Arc<RawVec<Payload>>, ops: Vec<BOp>, pool: Option<Arc<rayon::ThreadPool>>, overflow: bool) {
     let cols = vec.columns();
     let mut last_own: Option<(u32, u32)> = None;
     for op in &ops {
@@ -151,10 +157,20 @@ fn thread_main(vec: Arc<RawVec<Payload>>, ops: Vec<BOp>, pool: Option<Arc<rayon:
                 let p = new_payload(cols);
                 let uid = p.uid;
                 let inv = sim::seq();
-                let idx = vec.push(p, |it, c| fill(it, c, *burn, false));
+                let r = world_nucleo::expected_panic(|| vec.push(p, |it, c| fill(it, c, *burn, false)));
                 let ret = sim::seq();
-                hist(|h| h.evs.push(Ev::Push { inv, ret, uid, idx: Some(idx) }));
-                last_own = Some((idx, uid));
+                match r {
+                    Ok(idx) => {
+                        hist(|h| h.evs.push(Ev::Push { inv, ret, uid, idx: Some(idx) }));
+                        last_own = Some((idx, uid));
+                    }
+                    Err(m) if overflow => {
+                        sim::probe("boxcar.push_rejected_full");
+                        let _ = m;
+                        hist(|h| h.evs.push(Ev::Push { inv, ret, uid, idx: None }));
+                    }
+                    Err(m) => sim::violation("*", "crash", format!("push of uid {uid} panicked: {m}")),
+                }
             }
             BOp::PushPanic => {
                 let p = new_payload(cols);
@@ -195,6 +211,7 @@ fn thread_main(vec: Arc<RawVec<Payload>>, ops: Vec<BOp>, pool: Option<Arc<rayon:
                 });
                 let ret = sim::seq();
                 match &r {
+                    _ if overflow => {}
                     Ok(()) if must_panic => {
                         sim::violation("C08", "lying-iterator-accepted", format!("extend with {n} items reporting {reported} (panic_at {panic_at:?}) returned normally"))
                     }
@@ -428,6 +445,55 @@ fn check_history(vec: &RawVec<Payload>) {
     }
 }
 
+/// Index space exhausted: every reservation after the prologue batch must be rejected, nothing
+/// may be stored, and count() must be monotone (it stays clamped at the maximum).
+fn check_overflow_history(vec: &RawVec<Payload>, rep: u32) {
+    const MAX_ENTRIES: u32 = u32::MAX - 32;
+    let _q = sim::quiet();
+    sim::probe("oracle.c08.overflow");
+    let evs = hist(|h| std::mem::take(&mut h.evs));
+    let mut counts: Vec<(u64, u64, u32)> = Vec::new();
+    for e in &evs {
+        match e {
+            Ev::Push { uid, idx: Some(i), .. } => soft(
+                "accepted-beyond-capacity",
+                format!("push of uid {uid} returned index {i} although {rep} indices (more than the maximum {MAX_ENTRIES}) were already reserved"),
+            ),
+            Ev::Extend { uids, ok: true, reported, .. } if *reported > 0 => soft(
+                "accepted-beyond-capacity",
+                format!("a batch of {} items was accepted although the index space was exhausted", uids.len()),
+            ),
+            Ev::Get { idx, got: Some(u), .. } => soft("phantom", format!("get({idx}) returned uid {u} from a vector into which nothing was ever stored")),
+            Ev::Count { inv, ret, value } => {
+                if *value > MAX_ENTRIES {
+                    soft("count", format!("count() returned {value}, more than the maximum number of entries {MAX_ENTRIES}"));
+                }
+                counts.push((*inv, *ret, *value));
+            }
+            Ev::Snapshot { items, .. } => {
+                if items.iter().any(|x| x.1.is_some()) {
+                    soft("phantom", "a snapshot of an empty vector yielded an item".to_string());
+                }
+            }
+            _ => {}
+        }
+    }
+    let fin = vec.count();
+    counts.push((u64::MAX - 1, u64::MAX, fin));
+    for a in &counts {
+        for b in &counts {
+            if a.1 < b.0 && a.2 > b.2 {
+                soft("count-decreased", format!("count() returned {} and, in a later call, {}", a.2, b.2));
+            }
+        }
+    }
+    for i in [0u32, 1, 31, 32, 33] {
+        if vec.get(i).is_some() {
+            soft("phantom", format!("index {i} holds an item although every push was rejected"));
+        }
+    }
+}
+
 impl Job for BoxcarScript {
     fn sched(&self) -> SchedCfg {
         self.sched.clone()
@@ -436,6 +502,32 @@ impl Job for BoxcarScript {
         HIST.with(|h| *h.borrow_mut() = Hist::default());
         ledger::with(|l| l.live_handles = vec![1]);
         let vec = Arc::new(RawVec::<Payload>::with_capacity(self.capacity, self.columns));
+        let overflow = self.overflow.is_some();
+        if let Some(rep) = self.overflow {
+            // F3 with a huge lie: reserves `rep` indices without touching memory, then is rejected
+            sim::fault("F3.lying_iterator");
+            sim::fault("F3.index_space_exhausted");
+            let it = LyingIter { items: vec![new_payload(self.columns)].into_iter(), reported: rep as usize };
+            let r = world_nucleo::expected_panic(|| vec.extend(it, |item, c| fill(item, c, 0, false)));
+            if r.is_ok() {
+                sim::violation("C08", "accepted-beyond-capacity", format!("a batch reporting {rep} items (more than the vector can ever hold) was accepted"));
+            }
+        }
+        // a second vector whose item type has no drop glue: its matcher columns still own memory
+        // (C11: "together with the matcher columns filled for it")
+        let side = RawVec::<u32>::with_capacity(self.capacity.min(1), self.columns);
+        for k in 0..3u32 {
+            side.push(k, |v, cols| {
+                for c in cols.iter_mut() {
+                    *c = alloc::tracked(|| Utf32String::from(format!("side{v}").as_str()));
+                }
+            });
+        }
+        side.extend([7u32, 8, 9].into_iter(), |v, cols| {
+            for c in cols.iter_mut() {
+                *c = alloc::tracked(|| Utf32String::from(format!("side{v}").as_str()));
+            }
+        });
         let needs_pool = self.threads.iter().flatten().any(|o| matches!(o, BOp::ParSnapshot { .. }));
         let pool = needs_pool.then(|| Arc::new(rayon::ThreadPoolBuilder::new().num_threads(self.pool_threads as usize).build().unwrap()));
         let mut hs = Vec::new();
@@ -445,7 +537,7 @@ impl Job for BoxcarScript {
             hs.push(shuttle::thread::spawn(move || {
                 sim::set_role(Role::Writer(k as u8));
                 nucleo_verif_rt::hb::acquire_token(&tok);
-                thread_main(v, ops, pool);
+                thread_main(v, ops, pool, overflow);
                 nucleo_verif_rt::hb::release_token()
             }));
         }
@@ -453,7 +545,12 @@ impl Job for BoxcarScript {
             let tok = h.join().unwrap();
             nucleo_verif_rt::hb::acquire_token(&tok);
         }
-        check_history(&vec);
+        if overflow {
+            check_overflow_history(&vec, self.overflow.unwrap());
+        } else {
+            check_history(&vec);
+        }
+        drop(side);
         drop(pool);
         ledger::with(|l| l.live_handles = vec![0]);
         drop(vec);
@@ -517,7 +614,22 @@ pub fn generate(rng: &mut SplitMix, focus: &str, thorough: bool) -> BoxcarScript
     }
     let est = pick(rng, &[80u64, 200, 500, 1200]);
     let sched = SchedCfg::generate(rng, est, nthreads as u32, 400_000);
-    BoxcarScript { capacity, columns, pool_threads: pick(rng, &[1u32, 2, 2, 3]), threads, sched }
+    // one run in 25 exhausts the index space first (2^32 - 33 entries is the documented limit)
+    let overflow = (rng.below(25) == 0).then(|| u32::MAX - pick(rng, &[0u32, 1, 3, 8, 20, 31]));
+    if overflow.is_some() {
+        // snapshots of a vector whose counter is saturated would walk billions of empty entries
+        for t in threads.iter_mut() {
+            t.retain(|o| !matches!(o, BOp::Snapshot { .. } | BOp::ParSnapshot { .. }));
+            for o in t.iter_mut() {
+                if let BOp::Extend { n, lie, panic_at, .. } = o {
+                    *n = (*n).clamp(1, 5);
+                    *lie = Lie::Honest;
+                    *panic_at = None;
+                }
+            }
+        }
+    }
+    BoxcarScript { overflow, capacity, columns, pool_threads: pick(rng, &[1u32, 2, 2, 3]), threads, sched }
 }
 
 pub fn candidates(s: &BoxcarScript) -> Vec<BoxcarScript> {
